@@ -13,7 +13,8 @@ threads).
 
 Part B (`TR.Adaptive`): the service. Quantification: every such configuration, every list of
 operations (= every arrival, poll, cancellation, time-advance order; inner calls that succeed,
-fail, panic or never complete; readiness checks made ahead of the call; probes).
+fail, panic or never complete; readiness checks made ahead of the call; probes; callers that
+keep a finished call future alive — `arrive … keep=1` — and let go of it at any later point).
 -/
 namespace TR.Props.C13
 open TR
@@ -125,7 +126,8 @@ open TR.Limit (Cfg InB)
 
 /-- **`in_flight` is exact**: in every reachable state, for all arrival / completion /
 cancellation / panic orders, the counter equals the number of calls really running (call
-future alive, inner call started and not finished). -/
+future alive, inner call started and not finished). A finished call future that its caller still
+holds is not in `running` (`held_future_not_in_flight`). -/
 theorem in_flight_exact (cfg : Cfg) (hmm : cfg.min ≤ cfg.max) (hf : cfg.fnum ≤ cfg.fden) (ops : List Op) :
     (run cfg ops).inFlight = (run cfg ops).running.length :=
   (inv_reachable ⟨hmm, hf⟩ ops).exact
@@ -155,27 +157,27 @@ theorem ready_iff_capacity (cfg : Cfg) (hmm : cfg.min ≤ cfg.max) (hf : cfg.fnu
 /-- Never refused while fewer than `limit` calls are in flight: a new caller arriving in a
 reachable state with spare capacity is admitted in that step (its inner call starts). -/
 theorem admitted_below_limit (cfg : Cfg) (hmm : cfg.min ≤ cfg.max) (hf : cfg.fnum ≤ cfg.fden) (ops : List Op)
-    (c : Nat) (sc : Step) (hk : known (run cfg ops) c = false) (hc : c ∉ (run cfg ops).checked)
+    (c : Nat) (sc : Step) (keep : Bool) (hk : known (run cfg ops) c = false) (hc : c ∉ (run cfg ops).checked)
     (hcap : (run cfg ops).running.length < (run cfg ops).alg.limit) :
-    (stepS cfg (run cfg ops) (.arrive c sc)).running = (run cfg ops).running ++ [c] ∧
-    (stepS cfg (run cfg ops) (.arrive c sc)).inFlight = (run cfg ops).inFlight + 1 := by
+    (stepS cfg (run cfg ops) (.arrive c sc keep)).running = (run cfg ops).running ++ [c] ∧
+    (stepS cfg (run cfg ops) (.arrive c sc keep)).inFlight = (run cfg ops).inFlight + 1 := by
   have h := ready_iff_capacity cfg hmm hf ops
   have hn : atCapacity (run cfg ops) = false := by
     cases hcp : atCapacity (run cfg ops)
     · rfl
     · have := h.mp hcp; omega
-  exact arrive_below cfg _ c sc hk hc hn
+  exact arrive_below cfg _ c sc keep hk hc hn
 
 /-- Never admitted at the limit: a caller that checks readiness with `limit` (or more) calls
 already in flight is refused (`result c notready`); nothing is started and the counter is unchanged. -/
 theorem refused_at_limit (cfg : Cfg) (hmm : cfg.min ≤ cfg.max) (hf : cfg.fnum ≤ cfg.fden) (ops : List Op)
-    (c : Nat) (sc : Step) (hk : known (run cfg ops) c = false) (hc : c ∉ (run cfg ops).checked)
+    (c : Nat) (sc : Step) (keep : Bool) (hk : known (run cfg ops) c = false) (hc : c ∉ (run cfg ops).checked)
     (hcap : (run cfg ops).running.length ≥ (run cfg ops).alg.limit) :
-    (stepS cfg (run cfg ops) (.arrive c sc)).running = (run cfg ops).running ∧
-    (stepS cfg (run cfg ops) (.arrive c sc)).inFlight = (run cfg ops).inFlight ∧
-    (stepS cfg (run cfg ops) (.arrive c sc)).log = (run cfg ops).log ++ [.result c .notReady] := by
+    (stepS cfg (run cfg ops) (.arrive c sc keep)).running = (run cfg ops).running ∧
+    (stepS cfg (run cfg ops) (.arrive c sc keep)).inFlight = (run cfg ops).inFlight ∧
+    (stepS cfg (run cfg ops) (.arrive c sc keep)).log = (run cfg ops).log ++ [.result c .notReady] := by
   have h := (ready_iff_capacity cfg hmm hf ops).mpr hcap
-  exact arrive_at cfg _ c sc hk hc h
+  exact arrive_at cfg _ c sc keep hk hc h
 
 /-- Every readiness check ever made (by an arriving caller, an ahead-of-time check or a probe)
 was answered correctly: refused iff at least `limit` calls were running at that step. -/
@@ -205,18 +207,127 @@ theorem service_limit_in_bounds (cfg : Cfg) (hmm : cfg.min ≤ cfg.max) (hf : cf
     InB cfg (run cfg ops).alg.limit ∧ ∀ v ∈ (run cfg ops).alg.stores, InB cfg v :=
   ⟨(inv_reachable ⟨hmm, hf⟩ ops).alg.lim, (inv_reachable ⟨hmm, hf⟩ ops).alg.stores⟩
 
+/-- Every running call has its scripted completion instant, its outcome and its serial (so the
+hypotheses of `completion_frees_slot` can always be met for a call that is running). -/
+theorem running_is_scheduled (cfg : Cfg) (hmm : cfg.min ≤ cfg.max) (hf : cfg.fnum ≤ cfg.fden) (ops : List Op) :
+    ∀ c ∈ (run cfg ops).running, ∃ t sc k, lookup (run cfg ops).doneAt c = some t ∧
+      lookup (run cfg ops).script c = some sc ∧ lookup (run cfg ops).kOf c = some k := by
+  intro c hc
+  have hi := inv_reachable (cfg := cfg) ⟨hmm, hf⟩ ops
+  have h1 := (hi.sched c hc).1
+  have h2 := (hi.sched c hc).2
+  have h3 := hi.runKnown c hc
+  unfold known at h3
+  rw [Option.isSome_iff_exists] at h1 h2 h3
+  obtain ⟨t, ht⟩ := h1
+  obtain ⟨k, hk⟩ := h2
+  obtain ⟨sc, hs⟩ := h3
+  exact ⟨t, sc, k, ht, hs, hk⟩
+
+/-- **A call stops counting as in flight when it completes or fails (or panics)** — at the poll
+that observes the end of the inner call, *not* when the caller eventually lets go of the future
+object. In every reachable state, for a running call `c` whose inner call has finished (scripted
+instant reached, outcome ok / error / panic): that one poll takes `c` out of `running` and gives
+its slot back (`in_flight` goes down by exactly one and is again the number of running calls),
+**whether or not the caller keeps the finished future alive** (`keep`: a pinned future polled by
+reference, a `select!` over `&mut fut`). A kept future that resolved with a value is from then
+on *held*: alive, but not in flight. -/
+theorem completion_frees_slot (cfg : Cfg) (hmm : cfg.min ≤ cfg.max) (hf : cfg.fnum ≤ cfg.fden) (ops : List Op)
+    (c t k : Nat) (sc : Step) (hc : c ∈ (run cfg ops).running)
+    (hd : lookup (run cfg ops).doneAt c = some t) (hs : lookup (run cfg ops).script c = some sc)
+    (hk : lookup (run cfg ops).kOf c = some k) (ht : (run cfg ops).now ≥ t) (hn : sc.out ≠ .never) :
+    (stepS cfg (run cfg ops) (.poll c)).inFlight + 1 = (run cfg ops).inFlight ∧
+    (stepS cfg (run cfg ops) (.poll c)).running = (run cfg ops).running.erase c ∧
+    c ∉ (stepS cfg (run cfg ops) (.poll c)).running ∧
+    (stepS cfg (run cfg ops) (.poll c)).inFlight = (stepS cfg (run cfg ops) (.poll c)).running.length ∧
+    (c ∈ (run cfg ops).keeps → sc.out ≠ .panic → c ∈ (stepS cfg (run cfg ops) (.poll c)).held) := by
+  have hi := inv_reachable (cfg := cfg) ⟨hmm, hf⟩ ops
+  have hi' := stepS_inv ⟨hmm, hf⟩ hi (.poll c)
+  obtain ⟨h1, h2, h3⟩ := poll_finished cfg (run cfg ops) c t k sc hc hd hs hk ht hn
+  have hpos : 0 < (run cfg ops).running.length := List.length_pos_of_mem hc
+  have hex := hi.exact
+  refine ⟨by rw [h1]; omega, h2, ?_, hi'.exact, ?_⟩
+  · rw [h2]; intro hm; exact ((hi.nodup.mem_erase_iff).mp hm).1 rfl
+  · intro hkp hnp
+    rw [h3, if_pos ⟨hkp, hnp⟩]
+    exact List.mem_append_right _ (List.mem_singleton.mpr rfl)
+
+/-- **… or is dropped**: dropping a running call future (polled or never polled) takes it out of
+`running` and gives its slot back in that step. -/
+theorem drop_frees_slot (cfg : Cfg) (hmm : cfg.min ≤ cfg.max) (hf : cfg.fnum ≤ cfg.fden) (ops : List Op)
+    (c : Nat) (hc : c ∈ (run cfg ops).running) :
+    (stepS cfg (run cfg ops) (.drop c)).inFlight + 1 = (run cfg ops).inFlight ∧
+    (stepS cfg (run cfg ops) (.drop c)).running = (run cfg ops).running.erase c ∧
+    c ∉ (stepS cfg (run cfg ops) (.drop c)).running := by
+  have hi := inv_reachable (cfg := cfg) ⟨hmm, hf⟩ ops
+  obtain ⟨h1, h2, _⟩ := drop_running cfg (run cfg ops) c hc
+  have hpos : 0 < (run cfg ops).running.length := List.length_pos_of_mem hc
+  have hex := hi.exact
+  refine ⟨by rw [h1]; omega, h2, ?_⟩
+  rw [h2]; intro hm; exact ((hi.nodup.mem_erase_iff).mp hm).1 rfl
+
+/-- **A finished call future that is still alive does not count as in flight**: in every
+reachable state no held future (resolved, not yet dropped by its caller) is among the running
+calls — and the counter is exactly the number of running calls (`in_flight_exact`), so with
+nothing running it is 0 however many finished futures are still held, and readiness is decided
+by the running calls alone (`ready_iff_capacity`). -/
+theorem held_future_not_in_flight (cfg : Cfg) (hmm : cfg.min ≤ cfg.max) (hf : cfg.fnum ≤ cfg.fden) (ops : List Op) :
+    (∀ c ∈ (run cfg ops).held, c ∉ (run cfg ops).running) ∧
+    (run cfg ops).inFlight = (run cfg ops).running.length ∧
+    ((run cfg ops).running = [] → (run cfg ops).inFlight = 0) ∧
+    ((run cfg ops).running.length < (run cfg ops).alg.limit → atCapacity (run cfg ops) = false) := by
+  have hi := inv_reachable (cfg := cfg) ⟨hmm, hf⟩ ops
+  refine ⟨hi.heldFree, hi.exact, quiescent_zero cfg hmm hf ops, ?_⟩
+  intro hlt
+  have h := ready_iff_capacity cfg hmm hf ops
+  cases hcp : atCapacity (run cfg ops)
+  · rfl
+  · have := h.mp hcp; omega
+
+/-- **Letting go of a finished future releases nothing** (the slot was given back at completion):
+the step changes neither the counter, nor the running calls, nor the algorithm, nor the answer
+of a readiness check, and emits no event. -/
+theorem letting_go_changes_nothing (cfg : Cfg) (ops : List Op) (c : Nat) :
+    (stepS cfg (run cfg ops) (.letGo c)).inFlight = (run cfg ops).inFlight ∧
+    (stepS cfg (run cfg ops) (.letGo c)).running = (run cfg ops).running ∧
+    (stepS cfg (run cfg ops) (.letGo c)).alg = (run cfg ops).alg ∧
+    (stepS cfg (run cfg ops) (.letGo c)).log = (run cfg ops).log ∧
+    atCapacity (stepS cfg (run cfg ops) (.letGo c)) = atCapacity (run cfg ops) := by
+  obtain ⟨h1, h2, h3, _, _, h6, _, h8⟩ := letGo_frame cfg (run cfg ops) c
+  exact ⟨h1, h2, h3, h6, h8⟩
+
 /-- Non-vacuity: limit 2 (AIMD, min 1, max 4). Two slow calls are admitted, a third caller is
 refused and a probe is refused; one call is dropped, the other panics: the counter is back to 0
 and a new caller is admitted. A caller checked ahead of time while one call was running calls
 after the limit was reached: `in_flight` exceeds the limit without any refusal being wrong. -/
 example :
     let cfg : Cfg := { kind := .aimd, min := 1, max := 4, initial := 2, thrNs := 5000000 }
-    let pre := [Op.arrive 1 ⟨10, .never⟩, .check 9, .arrive 2 ⟨3, .panic⟩, .arrive 3 ⟨0, .ok⟩, .probeReady]
+    let pre := [Op.arrive 1 ⟨10, .never⟩ false, .check 9, .arrive 2 ⟨3, .panic⟩ false, .arrive 3 ⟨0, .ok⟩ false, .probeReady]
     (run cfg pre).running = [1, 2] ∧ (run cfg pre).inFlight = 2 ∧ (run cfg pre).checked = [9] ∧
     (run cfg pre).checks = [⟨1, 0, 2, false⟩, ⟨9, 1, 2, false⟩, ⟨2, 1, 2, false⟩, ⟨3, 2, 2, true⟩, ⟨0, 2, 2, true⟩] ∧
-    (run cfg (pre ++ [.arrive 9 ⟨0, .ok⟩])).inFlight = 3 ∧
+    (run cfg (pre ++ [.arrive 9 ⟨0, .ok⟩ false])).inFlight = 3 ∧
     (run cfg (pre ++ [.drop 1, .adv 3, .poll 2])).inFlight = 0 ∧
-    (run cfg (pre ++ [.drop 1, .adv 3, .poll 2, .arrive 4 ⟨0, .ok⟩])).running = [4] := by
+    (run cfg (pre ++ [.drop 1, .adv 3, .poll 2, .arrive 4 ⟨0, .ok⟩ false])).running = [4] := by
+  decide
+
+/-- Non-vacuity (finished futures kept alive): fixed limit 1. Caller 1 keeps its future; it
+completes at the first poll: nothing is running, `in_flight` is 0 and a readiness probe is
+answered "ready" while the finished future is still held; caller 2 (a failing call, kept as
+well) is admitted and fails: both finished futures are held, nothing is in flight; letting go
+of them afterwards changes nothing. The hypotheses of `completion_frees_slot` are met by
+caller 1 before its poll. -/
+example :
+    let cfg : Cfg := { kind := .aimd, min := 1, max := 1, initial := 1 }
+    let a := [Op.arrive 1 ⟨0, .ok⟩ true]
+    let b := a ++ [.poll 1, .probeInFlight, .probeReady]
+    let d := b ++ [.arrive 2 ⟨0, .err 1⟩ true, .poll 2]
+    (run cfg a).running = [1] ∧ (run cfg a).inFlight = 1 ∧ (run cfg a).keeps = [1] ∧
+    lookup (run cfg a).doneAt 1 = some 0 ∧ lookup (run cfg a).script 1 = some ⟨0, .ok⟩ ∧ lookup (run cfg a).kOf 1 = some 0 ∧
+    (run cfg b).running = [] ∧ (run cfg b).held = [1] ∧ (run cfg b).inFlight = 0 ∧
+    (run cfg b).checks = [⟨1, 0, 1, false⟩, ⟨0, 0, 1, false⟩] ∧
+    (run cfg (b ++ [.arrive 2 ⟨0, .err 1⟩ true])).running = [2] ∧
+    (run cfg d).held = [1, 2] ∧ (run cfg d).inFlight = 0 ∧ (run cfg d).running = [] ∧
+    (run cfg (d ++ [.letGo 1, .letGo 2])).held = [] ∧ (run cfg (d ++ [.letGo 1, .letGo 2])).inFlight = 0 := by
   decide
 
 end service
